@@ -204,6 +204,9 @@ def run(v, O):
 '''
 
 
+USED = []
+
+
 def gen_tree(rnd, pool, depth, names, nfac):
     r = rnd.random()
     if depth == 0 or r < 0.35:
@@ -212,8 +215,12 @@ def gen_tree(rnd, pool, depth, names, nfac):
             n = f'x{len(names) + 1}'
             names.append(n)
             return ('n', n)
-        pre, base = pool.pop() if pool else ('', 'm')
-        e = rnd.choice(['1', '1', '1', '2', '-1', '3', '-2', '-3', '1/2', '-1/2', '3/2'])
+        if USED and rnd.random() < 0.3:
+            pre, base = rnd.choice(USED)          # the same symbol again, usually with another exponent (m3/m, s1:5*s1:2)
+        else:
+            pre, base = pool.pop() if pool else ('', 'm')
+            USED.append((pre, base))
+        e = rnd.choice(['1', '1', '1', '2', '-1', '3', '-2', '-3', '1/2', '-1/2', '3/2', '1/3', '1/4', '2/3', '1/12', '-5/12', '7/10', '1/5', '12', '-10'])
         return ('u', pre, base, e)
     if r < 0.5:
         return ('par', gen_tree(rnd, pool, depth - 1, names, nfac))
@@ -287,6 +294,7 @@ def scenarios_b(tier, seed):
             pool = list(allsyms)
             rnd.shuffle(pool)
         names = []
+        del USED[:]
         t = gen_tree(rnd, pool, rnd.choice([1, 2, 2, 3]), names, [2])
         tu = ns['strip_numbers'](t)
 
